@@ -2,7 +2,7 @@
 Require Import DV.Base.Bytes DV.Model.Client.
 From Coq Require Import Arith.
 
-Ltac prj := cbn [table closed nw ws whop inq nsent senth wired stop stop_legacy].
+Ltac prj := cbn [table closed nw ws whop inq nsent senth wired gone stop stop_legacy].
 
 (* ---------- association-list and update facts ---------- *)
 Definition keys (t : list (N * nat)) := map fst t.
@@ -107,7 +107,7 @@ Proof. constructor; cbn; try (intros; lia || tauto || discriminate); try constru
 
 Lemma inv_step s e : Inv s -> Inv (step s e).
 Proof.
-  intros HI. pose proof HI as [Hk Ht Hp Hc Hg Ho Hi]. destruct e as [h|h|h| |]; cbn [step].
+  intros HI. pose proof HI as [Hk Ht Hp Hc Hg Ho Hi]. destruct e as [h|h|h| | |ab]; cbn [step].
   - (* Register *)
     destruct (closed s) eqn:Hcl.
     + rewrite (Hc eq_refl) in *. constructor; prj; auto.
@@ -174,6 +174,24 @@ Proof.
     + destruct Hi as [Hnd Hin]. cbn [fids] in Hnd. inversion Hnd as [|? ? Hnf Hndq]; subst.
       destruct (lookup (table s) (hop f)) as [i|] eqn:El.
       * apply lookup_in in El. destruct (Ht _ _ El) as (Hlt & Hh & Hw).
+        destruct (gone s i) eqn:Hgone.
+        { (* the Receiver is gone: the entry is removed, the send fails, the reader stops *)
+          apply inv_stop; [|reflexivity]. constructor; prj.
+          - now apply nodup_remove.
+          - intros k j Hin'. apply in_remove in Hin'. destruct Hin' as [Hin' Hne]. destruct (Ht _ _ Hin') as (A & B & C).
+            assert (j <> i) by (intros ->; congruence). rewrite upd_other by auto. auto.
+          - intros j Hj Hwj. destruct (Nat.eq_dec j i) as [->|Hne]; [rewrite upd_same in Hwj; discriminate|].
+            rewrite upd_other in Hwj by auto. apply in_remove. split; [auto|]. intros E.
+            pose proof (Hp j Hj Hwj) as Hin'. rewrite E in Hin'. apply Hne. eapply nodup_key_unique; eauto.
+          - discriminate.
+          - intros j g Hj Hwj. destruct (Nat.eq_dec j i) as [->|Hne]; [rewrite upd_same in Hwj; discriminate|].
+            rewrite upd_other in Hwj by auto. destruct (Hg j g Hj Hwj) as (A & B & C & D). repeat split; auto.
+            cbn [fids In] in D. tauto.
+          - intros a b g g' Ha Hb Hwa Hwb Efid.
+            destruct (Nat.eq_dec a i) as [->|Hna]; [rewrite upd_same in Hwa; discriminate|].
+            destruct (Nat.eq_dec b i) as [->|Hnb]; [rewrite upd_same in Hwb; discriminate|].
+            rewrite upd_other in Hwa, Hwb by auto. eauto.
+          - split; [auto|]. intros g Hg'. apply Hin. now right. }
         constructor; prj.
         -- now apply nodup_remove.
         -- intros k j Hin'. apply in_remove in Hin'. destruct Hin' as [Hin' Hne]. destruct (Ht _ _ Hin') as (A & B & C).
@@ -200,6 +218,8 @@ Proof.
     + destruct Hi as [Hnd Hin]. cbn [fids] in Hnd.
       apply inv_stop; [|reflexivity]. constructor; prj; auto.
       split; [auto|]. intros g Hg'. apply Hin. now right.
+  - (* Abandon: only the ghost flag changes *)
+    constructor; prj; auto.
 Qed.
 
 Lemma inv_fold es : forall s, Inv s -> Inv (fold_left step es s).
@@ -270,7 +290,7 @@ Proof.
   destruct e; cbn [step]; prj; auto.
   - destruct (closed s); prj; lia.
   - destruct (closed s); [lia|]. destruct (inq s) as [|[f|] q]; [lia| |prj; lia].
-    destruct (lookup (table s) (hop f)); prj; lia.
+    destruct (lookup (table s) (hop f)) as [i|]; [destruct (gone s i)|]; prj; lia.
 Qed.
 
 Lemma drop_all_notin t w i : (forall h, ~ In (h, i) t) -> drop_all t w i = w i.
@@ -284,13 +304,15 @@ Lemma resolved_step s e i : Inv s -> i < nw s -> ws s i <> WPending -> ws (step 
 Proof.
   intros [Hk Ht Hp Hc Hg Ho Hi] Hlt Hw.
   assert (Hnt : forall h, ~ In (h, i) (table s)) by (intros h Hin; apply Ht in Hin; tauto).
-  destruct e as [h|h|h| |]; cbn [step]; prj; auto.
+  destruct e as [h|h|h| | |ab]; cbn [step]; prj; auto.
   - destruct (closed s); prj.
     + apply upd_other. lia.
     + rewrite upd_other by lia. destruct (lookup (table s) h) as [j|] eqn:El; [|reflexivity].
       apply lookup_in in El. apply upd_other. intros ->. now apply (Hnt h).
   - destruct (closed s); [reflexivity|]. destruct (inq s) as [|[f|] q]; [reflexivity| |].
-    + destruct (lookup (table s) (hop f)) as [j|] eqn:El; prj.
+    + destruct (lookup (table s) (hop f)) as [j|] eqn:El; [destruct (gone s j)|]; prj.
+      * apply lookup_in in El. assert (i <> j) by (intros ->; now apply (Hnt (hop f))).
+        rewrite drop_all_notin; [now apply upd_other|]. intros h Hin. apply in_remove in Hin. now apply (Hnt h).
       * apply lookup_in in El. apply upd_other. intros ->. now apply (Hnt (hop f)).
       * now apply drop_all_notin.
     + prj. now apply drop_all_notin.
@@ -367,6 +389,7 @@ Definition ok_ev (s : st) (e : ev) : Prop :=
               /\ (forall a, a < nsent s -> senth s a <> h)            (* at most one answer per id *)
   | PeerBad => False                                                  (* the connection is not cut *)
   | ReaderStep => True
+  | Abandon i => i < nw s /\ ws s i <> WPending                       (* a future is dropped only once it has completed *)
   end.
 Fixpoint all_ok (es : list ev) (s : st) : Prop :=
   match es with [] => True | e :: es' => ok_ev s e /\ all_ok es' (step s e) end.
@@ -385,17 +408,19 @@ Proof. intros H. apply existsb_exists in H. destruct H as [i [Hi Hp]]. apply in_
 Lemma ok_evb_sound_gen b s e : ok_evb b s e = true -> if b then ok_ev s e else ok_ev_wf s e.
 Proof.
   assert (G : forall e, (match e with WireOut _ => False | _ => True end) -> ok_evb b s e = true -> ok_ev s e).
-  { intros [h|h|h| |] Hn H; cbn [ok_evb ok_ev] in *; auto; try discriminate; try tauto.
+  { intros [h|h|h| | |ab] Hn H; cbn [ok_evb ok_ev] in *; auto; try discriminate; try tauto.
+    3:{ apply andb_true_iff in H. destruct H as [H1 H2]. apply Nat.ltb_lt in H1. split; [exact H1|].
+        intros E. rewrite E in H2. discriminate. }
     - intros i Hi E. pose proof (forallb_seq_lt _ _ H i Hi) as P. cbn beta in P. apply negb_true_iff in P.
       apply N.eqb_neq in P. auto.
     - apply andb_true_iff in H. destruct H as [H1 H2]. split.
       + apply existsb_exists in H1. destruct H1 as [x [Hx E]]. apply N.eqb_eq in E. now subst x.
       + intros a Ha E. pose proof (forallb_seq_lt _ _ H2 a Ha) as P. cbn beta in P. apply negb_true_iff in P.
         apply N.eqb_neq in P. auto. }
-  intros H. destruct e as [h|h|h| |].
+  intros H. destruct e as [h|h|h| | |ab].
   2:{ destruct b; cbn [ok_evb ok_ev ok_ev_wf] in *; [|exact I].
       destruct (existsb_seq_lt _ _ H) as (i & Hi & E). apply N.eqb_eq in E. eauto. }
-  all: destruct b; cbv iota; cbn [ok_ev_wf]; apply G; [exact I|exact H|exact I|exact H].
+  all: destruct b; cbv iota; cbn [ok_ev_wf]; apply G; solve [exact I|exact H].
 Qed.
 
 Lemma all_okb_sound es : forall s, all_okb true es s = true -> all_ok es s.
@@ -428,7 +453,8 @@ Record Jnv (s : st) : Prop := {
   J_dist  : forall i j, i < nw s -> j < nw s -> whop s i = whop s j -> i = j;
   J_one   : forall a b, a < nsent s -> b < nsent s -> senth s a = senth s b -> a = b;
   J_reg   : forall a, a < nsent s -> exists i, i < nw s /\ whop s i = senth s a;
-  J_wired : forall h, In h (wired s) -> exists i, i < nw s /\ whop s i = h
+  J_wired : forall h, In h (wired s) -> exists i, i < nw s /\ whop s i = h;
+  J_gone  : forall i, gone s i = true -> i < nw s /\ ws s i <> WPending
 }.
 
 Lemma jnv_init : Jnv init.
@@ -436,7 +462,7 @@ Proof. constructor; cbn; try reflexivity; try (intros; lia); try (intros; tauto)
 
 Lemma jnv_step s e : Inv s -> Jnv s -> ok_ev' s e -> Jnv (step s e).
 Proof.
-  intros [Hk Ht Hp Hc Hg Ho [Hnd Hiq]] [Jo Ji Jw Jd J1 Jr Jwi] Hok. destruct e as [h|h|h| |]; cbn [step ok_ev' ok_ev] in *.
+  intros [Hk Ht Hp Hc Hg Ho [Hnd Hiq]] [Jo Ji Jw Jd J1 Jr Jwi Jg] Hok. destruct e as [h|h|h| | |ab]; cbn [step ok_ev' ok_ev] in *.
   - (* Register h, h fresh *)
     rewrite Jo.
     assert (Hfresh : forall i, ~ In (h, i) (table s)).
@@ -456,6 +482,7 @@ Proof.
     + exact J1.
     + intros a Ha. destruct (Jr a Ha) as (i & Hi & Ei). exists i. split; [lia|]. rewrite upd_other by lia. exact Ei.
     + intros k Hk'. destruct (Jwi k Hk') as (i & Hi & Ei). exists i. split; [lia|]. rewrite upd_other by lia. exact Ei.
+    + intros i Hgi. destruct (Jg i Hgi) as [Hlt Hw]. split; [lia|]. rewrite upd_other by lia. exact Hw.
   - (* WireOut h *)
     constructor; prj; auto. intros k [<-|Hk']; [exact Hok|auto].
   - (* Peer h *)
@@ -484,6 +511,7 @@ Proof.
       * rewrite upd_same. eauto.
       * rewrite upd_other by auto. apply Jr. lia.
     + exact Jwi.
+    + exact Jg.
   - (* PeerBad *)
     constructor; prj; auto.
     + intros f Hf. apply in_app_iff in Hf. destruct Hf as [Hf|[E|[]]]; [auto|discriminate].
@@ -492,7 +520,9 @@ Proof.
   - (* ReaderStep *)
     rewrite Jo. destruct (inq s) as [|[f|] q] eqn:Eq; [constructor; auto; rewrite Eq; auto| |exfalso; now apply (Hok q)].
     destruct (Ji f (or_introl eq_refl)) as [i Hin]. rewrite (lookup_some _ _ _ Hk Hin).
-    destruct (Ht _ _ Hin) as (Hlt & Hh & Hw). cbn [fids] in Hnd. inversion Hnd as [|? ? Hnf Hndq]; subst.
+    destruct (Ht _ _ Hin) as (Hlt & Hh & Hw).
+    assert (Egone : gone s i = false) by (destruct (gone s i) eqn:G; [destruct (Jg i G) as [_ C]; congruence|reflexivity]).
+    rewrite Egone. cbn [fids] in Hnd. inversion Hnd as [|? ? Hnf Hndq]; subst.
     assert (Hhop : forall g, In (IFrame g) q -> hop g <> hop f).
     { intros g Hgq E. destruct (Hiq f (or_introl eq_refl)) as [Af Bf]. destruct (Hiq g (or_intror Hgq)) as [Ag Bg].
       assert (fid g = fid f) by (apply J1; auto; congruence). apply Hnf. apply in_fids. exists g. auto. }
@@ -508,16 +538,21 @@ Proof.
     + exact J1.
     + exact Jr.
     + exact Jwi.
+    + intros j Hgj. destruct (Jg j Hgj) as [Hlj Hwj]. split; [exact Hlj|].
+      rewrite upd_other; [exact Hwj|]. intros ->. congruence.
+  - (* Abandon ab: the future had completed; only the ghost flag changes *)
+    constructor; prj; auto. intros j Hgj. destruct (Nat.eq_dec j ab) as [->|Hne]; [exact Hok|].
+    rewrite upd_other in Hgj by auto. auto.
 Qed.
 
 (* under the strict guards the queue never contains a cut *)
 Lemma nobad_step s e : ~ In IBad (inq s) -> ok_ev s e -> ~ In IBad (inq (step s e)).
 Proof.
-  intros Hn Hok. destruct e as [h|h|h| |]; cbn [step ok_ev] in *; prj; auto.
+  intros Hn Hok. destruct e as [h|h|h| | |ab]; cbn [step ok_ev] in *; prj; auto.
   - destruct (closed s); prj; auto.
   - rewrite in_app_iff. cbn [In]. intros [A|[A|[]]]; [auto|discriminate].
   - destruct (closed s); [auto|]. destruct (inq s) as [|[f|] q] eqn:Eq; [rewrite Eq; auto| |].
-    + destruct (lookup (table s) (hop f)); prj; intros A; apply Hn; now right.
+    + destruct (lookup (table s) (hop f)) as [i|]; [destruct (gone s i)|]; prj; intros A; apply Hn; now right.
     + exfalso. apply Hn. now left.
 Qed.
 
@@ -560,13 +595,14 @@ Definition cut_seen (s : st) : Prop := In IBad (inq s) \/ closed s = true.
 Lemma cut_seen_step s e : cut_seen s -> cut_seen (step s e).
 Proof.
   intros [Hb|Hc]; [|right; now apply closed_step].
-  destruct e as [h|h|h| |]; cbn [step]; unfold cut_seen.
+  destruct e as [h|h|h| | |ab]; cbn [step]; unfold cut_seen.
   - destruct (closed s); prj; auto.
   - prj; auto.
   - prj. left. apply in_app_iff. auto.
   - prj. left. apply in_app_iff. auto.
   - destruct (closed s) eqn:Hc; [auto|]. destruct (inq s) as [|[f|] q] eqn:Eq; [rewrite Eq; auto| |prj; auto].
-    destruct Hb as [Hb|Hb]; [discriminate|]. destruct (lookup (table s) (hop f)); prj; auto.
+    destruct Hb as [Hb|Hb]; [discriminate|]. destruct (lookup (table s) (hop f)) as [i|]; [destruct (gone s i)|]; prj; auto.
+  - prj; auto.
 Qed.
 Lemma cut_seen_fold es : forall s, cut_seen s -> cut_seen (fold_left step es s).
 Proof. induction es as [|e es IH]; cbn [fold_left]; auto using cut_seen_step. Qed.
@@ -695,7 +731,7 @@ Proof.
   2:{ split; [now apply inv_step|]. right. cbn [step]. rewrite Hc. auto. }
   split; [now apply inv_step|]. destruct q as [|f q]; cbn [map app] in Eq.
   - (* the reader consumes the cut: stop *)
-    right. pose proof HI as [Hk Ht Hp Hcl Hg Ho Hi]. destruct HJ as [Jo Ji Jw Jd J1 Jr Jwi].
+    right. pose proof HI as [Hk Ht Hp Hcl Hg Ho Hi]. destruct HJ as [Jo Ji Jw Jd J1 Jr Jwi Jg].
     cbn [step]. rewrite Jo, Eq. prj. split; [reflexivity|]. split; [reflexivity|].
     intros i Hlt. prj. destruct (Jw i Hlt) as [[Hw Hn]|[[Hw (f & Hf & _)]|[f Hw]]].
     + right. split; [|exact Hn]. apply drop_all_in with (whop s i). now apply Hp.
@@ -705,9 +741,11 @@ Proof.
   - (* the reader consumes an answer *)
     left. split.
     + apply jnv_step; auto. cbn [ok_ev']. intros q' E. rewrite Eq in E. discriminate.
-    + exists q. pose proof HI as [Hk Ht Hp Hcl Hg Ho Hi]. destruct HJ as [Jo Ji Jw Jd J1 Jr Jwi].
+    + exists q. pose proof HI as [Hk Ht Hp Hcl Hg Ho Hi]. destruct HJ as [Jo Ji Jw Jd J1 Jr Jwi Jg].
       destruct (Ji f) as [i Hin]; [rewrite Eq; now left|].
-      cbn [step]. rewrite Jo, Eq, (lookup_some _ _ _ Hk Hin). reflexivity.
+      assert (Egone : gone s i = false).
+      { destruct (gone s i) eqn:G; [|reflexivity]. destruct (Jg i G) as [_ C]. destruct (Ht _ _ Hin) as (_ & _ & Hw). congruence. }
+      cbn [step]. rewrite Jo, Eq, (lookup_some _ _ _ Hk Hin), Egone. reflexivity.
 Qed.
 
 Lemma draining_fold n : forall s, draining s -> draining (fold_left step (repeat ReaderStep n) s).
@@ -748,15 +786,17 @@ Proof.
     destruct Hd as [HI [[HJ [q Eq]]|(Hc & Hq & _)]]; [|rewrite Hq in En; discriminate].
     destruct q as [|f q]; cbn [map app] in Eq.
     + destruct Hd' as [_ [[_ [q' Eq']]|(Hc' & Hq' & _)]].
-      * exfalso. destruct HJ as [Jo _ _ _ _ _ _]. cbn [step] in Eq'. rewrite Jo, Eq in Eq'. prj. cbn [inq] in Eq'.
+      * exfalso. destruct HJ as [Jo _ _ _ _ _ _ _]. cbn [step] in Eq'. rewrite Jo, Eq in Eq'. prj. cbn [inq] in Eq'.
         destruct q'; discriminate.
       * assert (E : forall k s0, closed s0 = true -> fold_left step (repeat ReaderStep k) s0 = s0).
         { induction k as [|k IHk]; intros s0 H0; cbn [repeat fold_left]; [reflexivity|].
           assert (step s0 ReaderStep = s0) as -> by (cbn [step]; now rewrite H0). now apply IHk. }
         rewrite E; auto.
-    + apply IH; [|exact Hd']. pose proof HI as [Hk _ _ _ _ _ _]. destruct HJ as [Jo Ji _ _ _ _ _].
+    + apply IH; [|exact Hd']. pose proof HI as [Hk Ht _ _ _ _ _]. destruct HJ as [Jo Ji _ _ _ _ _ Jg].
       destruct (Ji f) as [i Hin]; [rewrite Eq; now left|].
-      cbn [step]. rewrite Jo, Eq, (lookup_some _ _ _ Hk Hin). prj. rewrite Eq in En. cbn [length] in En. lia.
+      assert (Egone : gone s i = false).
+      { destruct (gone s i) eqn:G; [|reflexivity]. destruct (Jg i G) as [_ C]. destruct (Ht _ _ Hin) as (_ & _ & Hw). congruence. }
+      cbn [step]. rewrite Jo, Eq, (lookup_some _ _ _ Hk Hin), Egone. prj. rewrite Eq in En. cbn [length] in En. lia.
 Qed.
 
 Lemma C12_cut_outcomes_drains es : all_ok es init ->
@@ -772,3 +812,47 @@ Lemma C12_cut_outcomes_nonvacuous :
   outcomes (run (es ++ PeerBad :: repeat ReaderStep 2)) =
     [WDropped; WGot {| hop := 2%N; fid := 1 |}; WGot {| hop := 3%N; fid := 0 |}].
 Proof. cbn zeta. split; [apply all_okb_sound; vm_compute; reflexivity|]. vm_compute. auto. Qed.
+
+(* ------------------------------------------------------------------ *)
+(* Dropped receivers (event Abandon): the caller dropped a ResponseFuture that was still pending, or
+   send_message failed in its write after registering the waiter.  The Sender stays in the table; when an
+   answer with that id arrives, process_decoded_msg removes the entry, sender.send fails, and the error
+   ends the reader loop - which then releases every other waiter. *)
+Lemma abandoned_answer_stops_reader s f q i : closed s = false -> inq s = IFrame f :: q ->
+  lookup (table s) (hop f) = Some i -> gone s i = true -> closed (step s ReaderStep) = true.
+Proof. intros Hc Hq Hl Hg. cbn [step]. rewrite Hc, Hq, Hl, Hg. reflexivity. Qed.
+
+Lemma abandoned_answer_releases_all es f q i j : closed (run es) = false -> inq (run es) = IFrame f :: q ->
+  lookup (table (run es)) (hop f) = Some i -> gone (run es) i = true ->
+  j < nw (run (es ++ [ReaderStep])) -> ws (run (es ++ [ReaderStep])) j <> WPending.
+Proof.
+  intros Hc Hq Hl Hg. apply C12_reader_stop_releases_all_lemma. rewrite run_snoc.
+  now apply abandoned_answer_stops_reader with f q i.
+Qed.
+
+(* a receiver dropped after its future completed changes nothing: the flag is only consulted for
+   waiters that are still in the table *)
+Lemma abandon_only_flag s i : let s' := step s (Abandon i) in
+  table s' = table s /\ closed s' = closed s /\ nw s' = nw s /\ ws s' = ws s /\ inq s' = inq s.
+Proof. cbn [step]. prj. auto. Qed.
+
+(* witness: two requests in flight with distinct ids, the future of the first is dropped while pending,
+   the peer answers both: the second future fails although its answer was sent (collateral of the first) *)
+Lemma abandoned_collateral_witness :
+  let es := [Register 1%N; WireOut 1%N; Register 2%N; WireOut 2%N; Abandon 0; Peer 1%N; ReaderStep; Peer 2%N; ReaderStep] in
+  closed (run es) = true /\ outcomes (run es) = [WDropped; WDropped] /\
+  (exists a, a < nsent (run es) /\ senth (run es) a = whop (run es) 1).
+Proof. vm_compute. repeat split. exists 1. split; [lia|reflexivity]. Qed.
+
+(* the same schedule without the drop: both futures get their answers *)
+Lemma abandoned_collateral_control :
+  let es := [Register 1%N; WireOut 1%N; Register 2%N; WireOut 2%N; Peer 1%N; ReaderStep; Peer 2%N; ReaderStep] in
+  closed (run es) = false /\ outcomes (run es) = [WGot {| hop := 1%N; fid := 0 |}; WGot {| hop := 2%N; fid := 1 |}].
+Proof. vm_compute. auto. Qed.
+
+(* non-vacuity of the relaxed guard: futures dropped after completion, matching still holds *)
+Lemma abandon_after_completion_example :
+  let es := [Register 1%N; WireOut 1%N; Peer 1%N; ReaderStep; Abandon 0; Register 2%N; WireOut 2%N; Peer 2%N; ReaderStep] in
+  all_ok es init /\ closed (run es) = false /\
+  outcomes (run es) = [WGot {| hop := 1%N; fid := 0 |}; WGot {| hop := 2%N; fid := 1 |}].
+Proof. split; [apply all_okb_sound; vm_compute; reflexivity|vm_compute; auto]. Qed.
